@@ -740,7 +740,8 @@ pub fn run(plan: &Plan, tape: dsim::Tape) -> RunOut {
                 });
             }
         }
-        let addr: Option<SocketAddr> = format!("{}:{}", s.interface, s.port).parse().ok();
+        // an unparsable address (C16 / C20 failing start-ups) leaves traffic aimed at the default
+        let addr: Option<SocketAddr> = format!("{}:{}", s.interface, s.port).parse().ok().or_else(|| "127.0.0.1:2002".parse().ok());
         ctx(|c| c.server_addr = addr);
     }
     ctx(|c| c.ip_pool = plan.p("ip_pool") as u32);
@@ -799,6 +800,8 @@ pub fn run(plan: &Plan, tape: dsim::Tape) -> RunOut {
             }),
             Action::WallStepMs(ms) => dsim::with(|w| w.at(at, move || dsim::with(|w| w.wall_step(ms as i128 * dsim::MS as i128)))),
             Action::WallSet { secs, nanos } => dsim::with(|w| w.at(at, move || dsim::with(|w| w.wall_set(secs as i128 * dsim::SEC as i128 + nanos as i128)))),
+            Action::WallFreeze { secs, nanos } => dsim::with(|w| w.at(at, move || dsim::with(|w| w.wall_freeze(Some(secs as i128 * dsim::SEC as i128 + nanos as i128))))),
+            Action::WallUnfreeze => dsim::with(|w| w.at(at, move || dsim::with(|w| w.wall_freeze(None)))),
             Action::Crash => dsim::with(|w| {
                 w.at(at, move || {
                     let p = ctx(|c| c.server_procs.last().copied());
